@@ -53,7 +53,7 @@ func genC11(rt *rapid.T) pdCase {
 	for i := 0; i < n; i++ {
 		l := fmt.Sprintf("s%d", i)
 		st := pdStep{
-			Kind: rapid.SampledFrom([]string{"poll", "poll", "poll", "post", "post", "postBlocked", "postBlocked", "release", "release", "abortPoll", "abortPost", "postWhileHandlerBusy", "appSend", "appSend", "appClose", "wait", "heartbeat", "postClose", "postWrongHeartbeat", "closeWhileBusySlowConn", "slowPoll", "pollInsideWrite", "pollInsideWrite", "postWrongType"}).Draw(rt, l+".kind"),
+			Kind: rapid.SampledFrom([]string{"poll", "poll", "poll", "post", "post", "postBlocked", "postBlocked", "release", "release", "abortPoll", "abortPost", "postWhileHandlerBusy", "appSend", "appSend", "appClose", "wait", "heartbeat", "postClose", "postWrongHeartbeat", "closeWhileBusySlowConn", "slowPoll", "pollInsideWrite", "pollInsideWrite", "postWrongType", "racingPolls", "racingPosts"}).Draw(rt, l+".kind"),
 			Sess: rapid.IntRange(0, c.NSess-1).Draw(rt, l+".sess"),
 			N:    rapid.IntRange(1, 5).Draw(rt, l+".n"),
 		}
@@ -366,6 +366,127 @@ func runC11(c pdCase) (fail string, stats map[string]bool) {
 			}
 			pc.Pump()
 			pc.Poll = nil
+		case "racingPolls", "racingPosts":
+			// two requests of the same kind arrive at the same moment: both have passed the overlap test before
+			// either is registered (yield points polling.on{Poll,Data}Request.checked). One of them is the
+			// overlapping one: it is refused with 400 and the session closes with a transport error; the other one
+			// gets its response (at the latest when the session closes)
+			if s.closed || s.poll != nil || s.post != nil || (pc.Poll != nil && !pc.Poll.Snap().Responded) {
+				break
+			}
+			pc.Pump()
+			if g == nil {
+				g = InstallGates(nil)
+				defer g.Uninstall()
+			}
+			site := "polling.onPollRequest.checked"
+			if st.Kind == "racingPosts" {
+				site = "polling.onDataRequest.checked"
+			}
+			n0 := g.Count(site)
+			gpA, gpB := GatePoint{site, n0}, GatePoint{site, n0 + 1}
+			g.mu.Lock()
+			g.plan[gpA], g.plan[gpB] = true, true
+			g.mu.Unlock()
+			var a, b *Exchange
+			var pkA []Pkt
+			var ch chan struct{}
+			if st.Kind == "racingPolls" {
+				a = pc.StartPoll()
+				Settle()
+				b = pc.StartPoll()
+				Settle()
+			} else {
+				// the first one's payload is still being processed (a slow message listener) when the second goes on
+				pkA = mkMsgs(s, st.N)
+				ch = make(chan struct{})
+				parkMsg, parkedInMsg = ch, false
+				a = pc.StartPost(pkA, false)
+				Settle()
+				b = pc.StartPost([]Pkt{msgT("from the overlapping request")}, false)
+				Settle()
+			}
+			both := 0
+			for _, x := range g.Parked() {
+				if x == gpA || x == gpB {
+					both++
+				}
+			}
+			g.mu.Lock()
+			delete(g.plan, gpA)
+			delete(g.plan, gpB)
+			g.mu.Unlock()
+			if both == 2 {
+				stats["two-"+map[string]string{"racingPolls": "polls", "racingPosts": "data-requests"}[st.Kind]+"-past-the-overlap-test-together"] = true
+			}
+			s.inPost = a
+			g.Release(gpA)
+			Settle()
+			if both == 2 && a.Snap().Responded {
+				// the first one was answered at once (data was waiting for it): the second one follows it, it
+				// does not overlap it
+				both = 1
+				delete(stats, "two-polls-past-the-overlap-test-together")
+				delete(stats, "two-data-requests-past-the-overlap-test-together")
+			}
+			g.Release(gpB)
+			Settle()
+			if ch != nil {
+				parkMsg = nil
+				close(ch)
+				Settle()
+			}
+			s.inPost = nil
+			pc.Poll = nil
+			if both != 2 {
+				// the second request did not get past the test while the first was held: an ordinary overlap or an
+				// ordinary sequence; nothing more is asserted here than one response each (below, by the invariant)
+				s.accepted = append(s.accepted, a)
+				if bs := b.Snap(); bs.Status == 400 {
+					s.refused = append(s.refused, b)
+					closeCause(s, "transport error")
+				} else {
+					s.accepted = append(s.accepted, b)
+				}
+				s.wantMsgs = append(s.wantMsgs[:0:0], s.sr.Msgs...)
+				if len(s.sr.Closes) > 0 {
+					closeCause(s, "transport error")
+				}
+				if st.Kind == "racingPolls" && !s.closed {
+					// whichever of the two is still pending is the client's outstanding poll
+					for _, e := range []*Exchange{a, b} {
+						if !e.Snap().Responded {
+							s.poll, pc.Poll = e, e
+						} else {
+							pc.Poll = e
+							pc.Pump()
+							pc.Poll = s.poll
+						}
+					}
+				}
+				break
+			}
+			as, bs := a.Snap(), b.Snap()
+			closeCause(s, "transport error")
+			switch {
+			case as.Status == 400 && bs.Status != 400:
+				s.refused, s.accepted = append(s.refused, a), append(s.accepted, b)
+			case bs.Status == 400 && as.Status != 400:
+				s.refused, s.accepted = append(s.refused, b), append(s.accepted, a)
+			default:
+				return fmt.Sprintf("%s: two %s requests of one session went past the overlap test together: answered %v and %v; exactly one of them is the overlapping one (400, session closed with a transport error)", what, a.Method, as, bs), stats
+			}
+			if !as.Responded || !bs.Responded {
+				return fmt.Sprintf("%s: two %s requests at the same moment: %v / %v: one of them was never answered", what, a.Method, as, bs), stats
+			}
+			if st.Kind == "racingPosts" {
+				// only the accepted request's payload may have been delivered (a prefix of it: the overlap closes the session)
+				extra := s.sr.Msgs[min(len(s.wantMsgs), len(s.sr.Msgs)):]
+				if !isPrefix(extra, pkA) && !(len(extra) <= 1 && bs.Status != 400) {
+					return fmt.Sprintf("%s: delivered %s; the accepted request carried %s", what, pktsString(extra), pktsString(pkA)), stats
+				}
+				s.wantMsgs = append(s.wantMsgs, extra...)
+			}
 		case "slowPoll":
 			// a poll over a slow connection: the status line of its response takes its time. The handler must not
 			// return before the response is out (what is written after it returned reaches nobody), one response
@@ -743,7 +864,7 @@ func TestC11PollingDiscipline(t *testing.T) {
 			rt.Fatalf("%v: %s", c, clipStr(res.Leak, 1500))
 		}
 	})
-	col.RequireClasses(t, "overlapping-poll", "overlapping-data-request", "aborted-poll", "aborted-data-request", "stalled-body-released", "poll-released-by-close", "poll-answered-by-send", "multi-packet-ack", "undisturbed-session-ok", "request-after-close", "data-request-while-handler-busy", "client-close-packet-with-poll-pending", "wrong-heartbeat-with-poll-pending", "two-responders-for-one-data-request", "poll-response-on-slow-connection", "poll-arriving-while-a-response-is-being-written", "data-request-with-disallowed-content-type", "disallowed-content-type-with-poll-pending")
+	col.RequireClasses(t, "overlapping-poll", "overlapping-data-request", "aborted-poll", "aborted-data-request", "stalled-body-released", "poll-released-by-close", "poll-answered-by-send", "multi-packet-ack", "undisturbed-session-ok", "request-after-close", "data-request-while-handler-busy", "client-close-packet-with-poll-pending", "wrong-heartbeat-with-poll-pending", "two-responders-for-one-data-request", "poll-response-on-slow-connection", "poll-arriving-while-a-response-is-being-written", "data-request-with-disallowed-content-type", "disallowed-content-type-with-poll-pending", "two-polls-past-the-overlap-test-together", "two-data-requests-past-the-overlap-test-together")
 }
 
 const sigTruncatedUpload = "aborted-upload-truncated-payload-processed"
